@@ -109,7 +109,10 @@ pub fn query_storm_case(seed: u64, ex: &Exec, k: u64, ctx: (String, String)) -> 
     for a in 0..nask {
         let mut req = Requestor::default();
         let mut expect = Vec::new();
-        for _ in 0..rng.range(2, 4) {
+        // One case in four uses a long connection list (more than 64 sub-futures
+        // in one broadcast, every replier connected many times).
+        let nconn = if !cfg!(miri) && seed % 4 == 0 { rng.range(65, 140) } else { rng.range(2, 4) };
+        for _ in 0..nconn {
             let r = rng.below(nrep);
             let kind = *rng.pick(&[0u8, 0, 1, 2]);
             match kind {
@@ -178,6 +181,7 @@ pub fn query_storm(rep: &mut Report, opts: &Opts) {
         };
         let replay = opts.replay_args("storm", case);
         rep.evaluations += 1;
+        let k = if cs % 4 == 0 && !cfg!(miri) { k / 20 } else { k };
         match query_storm_case(cs, &ex, k, ("C14/hang/query-broadcast-never-completes".into(), replay.clone())) {
             Ok(st) => {
                 rep.count("storm_queries_compared", st.queries);
@@ -288,7 +292,10 @@ pub fn event_stream_case(prop: &str, seed: u64, ex: &Exec, n: u64, ctx: (String,
     let mut rng = Rng::new(seed);
     rec::reset(&ex.cfg);
     rec::set_context(&ctx.0, &ctx.1);
-    let nsinks = rng.range(2, 3);
+    // One case in four broadcasts to many sinks (more than 64 sub-futures).
+    let many = !cfg!(miri) && seed % 4 == 1;
+    let nsinks = if many { rng.range(65, 100) } else { rng.range(2, 3) };
+    let n = if many { n / 20 } else { n };
     let mut init = SimInit::with_num_threads(ex.threads);
     let mut src = StreamSrc { out1: Output::default(), out2: Output::default() };
     let mut relay = StreamRelay { out: Output::default(), spins: *rng.pick(&[0u64, 50, 500]) };
